@@ -53,7 +53,8 @@ def selectedBins (b : Bag) (apps : Selector) (mode : Mode) : Except GErr (List M
   match mode with
   | .global => return bins
   | .local dir =>
-    let outside := bins.filter (fun m => m.relpath != dir)
+    -- a name that is (also) defined in the start directory is not missing there
+    let outside := bins.filter (fun m => m.relpath != dir && !(bins.any (fun m' => m'.relpath == dir && m'.name == m.name)))
     match apps with
     | .some _ => if !outside.isEmpty then throw (.error "binaries not defined in the current directory")
     | .all => pure ()
